@@ -1337,6 +1337,10 @@ impl DcpsDomainParticipant {
             .any(|x| subscription_handle.as_ref() == &x.key().value)
         {
             data_writer.remove_matched_subscription(&subscription_handle);
+            // The RTPS writer must stop sending to (and waiting for) the deleted reader
+            data_writer
+                .transport_writer
+                .delete_matched_reader(Guid::from(<[u8; 16]>::from(subscription_handle)));
 
             data_writer
                 .status_condition
@@ -1867,6 +1871,10 @@ impl DcpsDomainParticipant {
             .any(|x| &x.key().value == publication_handle.as_ref())
         {
             data_reader.remove_matched_publication(&publication_handle);
+            // The RTPS reader must stop acknowledging to the deleted writer
+            data_reader
+                .transport_reader
+                .delete_matched_writer(Guid::from(<[u8; 16]>::from(publication_handle)));
         }
     }
 
